@@ -160,7 +160,12 @@ class Driver:
             return self._run(items, timeout)
         except subprocess.TimeoutExpired:
             if not tolerant:
-                raise
+                # a large batch on a loaded machine: halves get the full time limit each; a single request that does
+                # not come back in time is still an error
+                if len(items) == 1:
+                    raise
+                mid = len(items) // 2
+                return self.batch(items[:mid], timeout) + self.batch(items[mid:], timeout)
         if len(items) == 1:
             return [list(self.TIMEOUT_ANSWER)]
         mid = len(items) // 2
